@@ -1374,7 +1374,7 @@ theorem getter_wrong_kind_error (f : StateFeature α) :
     simp [StateFeature.getDistanceUnit, StateFeature.getTimeUnit, StateFeature.getEnergyUnit,
       StateFeature.getCustomFeatureFormat] <;> (intros; simp_all)
 
-/-- a custom feature of another format is another kind (since /repo fix ceb1497: `PartialEq` compared
+/-- a custom feature of another format is another kind (since /repo fix 2a35432: `PartialEq` compared
 type and unit only), so by `extend_refuses_kind_change` an override that turns the floating-point
 `battery_state` into an integer or boolean feature of the same type and unit is refused -/
 theorem custom_format_change_is_kind_change (t u : String) (x : α) (i : Int) (n : Nat) (b : Bool) :
